@@ -6,6 +6,11 @@
 //! of complete sequences only, and the interpreted operation list must equal the operations
 //! the commands denote; SGR output is judged semantically with the reference SGR machine
 //! (`refsgr`) starting from an arbitrary prior state.
+//! Colours may be translucent and repeat the RGB of the colour looked up just before with
+//! another alpha; what a translucent colour is encoded as is taken from the library itself:
+//! the command encoded alone by a brand-new encoder is the reference for the long-lived one
+//! ("parses back into the same operations whatever preceded it"), and a colour encoded alone
+//! is the reference for the same colour next to other fields ("one palette entry per colour").
 
 use crate::engine::*;
 use crate::refsgr::{self, Role, SgrParam, SgrState};
@@ -29,6 +34,16 @@ pub struct FaceSpec {
     pub flags: u8,
     /// 0 none .. 5 dashed
     pub underline: u8,
+    /// alpha of fg / bg (None = opaque); only meaningful where the colour is present
+    #[serde(default)]
+    pub fg_alpha: Option<u8>,
+    #[serde(default)]
+    pub bg_alpha: Option<u8>,
+}
+
+/// the library colour of a generated colour (`alpha` None = opaque)
+pub fn rgba(c: Option<[u8; 3]>, alpha: Option<u8>) -> Option<RGBA> {
+    c.map(|[r, g, b]| RGBA::new(r, g, b, alpha.unwrap_or(255)))
 }
 
 pub fn ul_style(n: u8) -> UnderlineStyle {
@@ -57,8 +72,7 @@ impl FaceSpec {
             }
         }
         attrs = attrs | FaceAttrs::from(ul_style(self.underline));
-        let c = |o: Option<[u8; 3]>| o.map(|[r, g, b]| RGBA::new(r, g, b, 255));
-        Face::new(c(self.fg), c(self.bg), attrs)
+        Face::new(rgba(self.fg, self.fg_alpha), rgba(self.bg, self.bg_alpha), attrs)
     }
 }
 
@@ -73,17 +87,24 @@ pub struct FmSpec {
     pub italic: Option<bool>,
     pub blink: Option<bool>,
     pub strike: Option<bool>,
+    /// alpha of fg / bg / underline colour (None = opaque); only meaningful where the colour
+    /// is present
+    #[serde(default)]
+    pub fg_alpha: Option<u8>,
+    #[serde(default)]
+    pub bg_alpha: Option<u8>,
+    #[serde(default)]
+    pub ul_alpha: Option<u8>,
 }
 
 impl FmSpec {
     pub fn to_lib(self) -> FaceModify {
-        let c = |o: Option<[u8; 3]>| o.map(|[r, g, b]| RGBA::new(r, g, b, 255));
         FaceModify {
             reset: self.reset,
-            fg: c(self.fg),
-            bg: c(self.bg),
+            fg: rgba(self.fg, self.fg_alpha),
+            bg: rgba(self.bg, self.bg_alpha),
             underline: self.underline.map(ul_style),
-            underline_color: c(self.underline_color),
+            underline_color: rgba(self.underline_color, self.ul_alpha),
             bold: self.bold,
             italic: self.italic,
             blink: self.blink,
@@ -91,18 +112,16 @@ impl FmSpec {
         }
     }
     pub fn is_noop(&self) -> bool {
-        *self
-            == FmSpec {
-                reset: false,
-                fg: None,
-                bg: None,
-                underline: None,
-                underline_color: None,
-                bold: None,
-                italic: None,
-                blink: None,
-                strike: None,
-            }
+        // (an alpha without its colour means nothing)
+        !self.reset
+            && self.fg.is_none()
+            && self.bg.is_none()
+            && self.underline.is_none()
+            && self.underline_color.is_none()
+            && self.bold.is_none()
+            && self.italic.is_none()
+            && self.blink.is_none()
+            && self.strike.is_none()
     }
 }
 
@@ -178,6 +197,10 @@ pub struct Case {
     /// allows (pipe, tty, fixed slice); see `ShortSink`
     #[serde(default)]
     pub short_sink: Option<Vec<u8>>,
+    /// the library as its own reference: every command is also encoded alone by a brand-new
+    /// encoder, and every colour of a face command alone (see `judge_against_fresh`)
+    #[serde(default)]
+    pub fresh_reference: bool,
 }
 
 /// `io::Write` that accepts `room` more bytes and then fails with `WouldBlock`
@@ -391,6 +414,106 @@ fn want(cmd: &Cmd, caps: Caps) -> Want {
     }
 }
 
+fn translucent(alpha: Option<u8>) -> bool {
+    alpha.is_some_and(|a| a != 255)
+}
+
+/// the colours of a face command in the order the encoder resolves them
+fn colour_slots(cmd: &Cmd) -> Vec<(Role, [u8; 3], Option<u8>)> {
+    let all = match cmd {
+        Cmd::Face(f) => vec![(Role::Fg, f.fg, f.fg_alpha), (Role::Bg, f.bg, f.bg_alpha)],
+        Cmd::FaceModify(m) => vec![(Role::Fg, m.fg, m.fg_alpha), (Role::Bg, m.bg, m.bg_alpha), (Role::Ul, m.underline_color, m.ul_alpha)],
+        _ => Vec::new(),
+    };
+    all.into_iter().filter_map(|(r, c, a)| c.map(|c| (r, c, a))).collect()
+}
+
+/// `cmd` encoded alone by a brand-new encoder; None if that fails (judged on the stream)
+fn fresh_bytes(cmd: TerminalCommand, caps: Caps) -> Option<Vec<u8>> {
+    let mut out = Vec::new();
+    let mut enc = TTYEncoder::new(caps.to_lib());
+    guard_val(|| enc.encode(&mut out, cmd)).ok()?.ok()?;
+    Some(out)
+}
+
+fn ops_of(bytes: &[u8]) -> Option<Vec<Op>> {
+    Some(refvt::parse(bytes).ok()?.iter().map(refvt::interpret).collect())
+}
+
+/// what the colour parameters of `role` select (an interpreter's view: RGB of the parameter)
+fn selected(params: &[SgrParam], role: Role) -> Vec<[u8; 3]> {
+    colour_params(params, role).into_iter().filter_map(|p| refsgr::color_of(p).map(|(_, rgb)| rgb)).collect()
+}
+
+fn depth_name(caps: Caps) -> &'static str {
+    match caps.depth {
+        0 => "true-colour",
+        1 => "256-colour",
+        _ => "grey-level",
+    }
+}
+
+/// the library as its own reference (`bytes`/`ops` = what the long-lived encoder of the stream
+/// emitted for `cmd`)
+fn judge_against_fresh(cmd: &Cmd, caps: Caps, bytes: &[u8], ops: &[Op]) -> Result<(), Fail> {
+    // "a stream of commands parses back into the same operations whatever preceded it": the
+    // command encoded alone by a brand-new encoder must mean the same
+    if let Some(fresh) = fresh_bytes(cmd.to_lib(), caps) {
+        if fresh != bytes {
+            if let Some(fresh_ops) = ops_of(&fresh) {
+                ensure!(
+                    fresh_ops == ops,
+                    format!("encode/{}/depends-on-history", cmd.kind()),
+                    "{:?} under {:?}: the stream's encoder emitted \"{}\" = {:?}, a brand-new encoder emits \"{}\" = {:?} for the same command",
+                    cmd,
+                    caps,
+                    esc(bytes),
+                    ops,
+                    esc(&fresh),
+                    fresh_ops
+                );
+            }
+        }
+    }
+    // "one palette entry per colour" (one true colour / grey level): what a colour selects is
+    // decided by the colour, not by the other colours and attributes of the command nor by
+    // earlier commands; the reference is the colour alone in a FaceModify of a new encoder
+    let slots = colour_slots(cmd);
+    if let ([Op::Sgr(params)], false) = (ops, slots.is_empty()) {
+        let family = if matches!(cmd, Cmd::Face(_)) { "face" } else { "modify" };
+        for (role, rgb, alpha) in slots {
+            let colour = rgba(Some(rgb), alpha);
+            let alone = match role {
+                Role::Fg => FaceModify { fg: colour, ..FaceModify::default() },
+                Role::Bg => FaceModify { bg: colour, ..FaceModify::default() },
+                Role::Ul => FaceModify { underline_color: colour, ..FaceModify::default() },
+            };
+            let Some(alone_bytes) = fresh_bytes(TerminalCommand::FaceModify(alone), caps) else { continue };
+            let alone_sel = match ops_of(&alone_bytes).as_deref() {
+                Some([Op::Sgr(p)]) => selected(p, role),
+                Some([]) => Vec::new(),
+                _ => continue,
+            };
+            let here = selected(params, role);
+            ensure!(
+                here == alone_sel,
+                format!("{family}/{}-depends-on-context", depth_name(caps)),
+                "{:?} under {:?} emitted \"{}\": the {:?} colour {:?} (alpha {:?}) selects {:?} here, but {:?} when a brand-new encoder encodes this colour alone (\"{}\")",
+                cmd,
+                caps,
+                esc(bytes),
+                role,
+                rgb,
+                alpha.unwrap_or(255),
+                here,
+                alone_sel,
+                esc(&alone_bytes)
+            );
+        }
+    }
+    Ok(())
+}
+
 fn colour_params(params: &[SgrParam], role: Role) -> Vec<&SgrParam> {
     params
         .iter()
@@ -436,9 +559,20 @@ fn check_face_sgr(params: &[SgrParam], face: FaceSpec, caps: Caps, prior: FaceSp
         "Face emitted SGR {:?} which keeps a previously set underline colour",
         refsgr::print(params)
     );
-    for (role, have, wanted) in [(Role::Fg, st.fg, want.fg), (Role::Bg, st.bg, want.bg)] {
+    for (role, have, wanted, alpha) in [(Role::Fg, st.fg, want.fg, face.fg_alpha), (Role::Bg, st.bg, want.bg, face.bg_alpha)] {
         let ps = colour_params(params, role);
         match caps.depth {
+            // which RGB a terminal should show for a translucent colour the statement does not
+            // say: exactly one true-colour parameter, its value is judged against the library
+            // itself (fresh encoder / colour alone, see `judge`)
+            0 if translucent(alpha) => ensure!(
+                ps.len() == wanted.is_some() as usize && ps.iter().all(|p| matches!(p, SgrParam::Rgb { .. })) && have.is_some() == wanted.is_some(),
+                "face/true-colour-one-parameter-per-colour",
+                "Face({:?}) emitted SGR {:?}: expected exactly one true-colour parameter for the translucent {:?} colour",
+                face,
+                refsgr::print(params),
+                role
+            ),
             0 => ensure!(
                 have == wanted,
                 "face/true-colour",
@@ -517,13 +651,22 @@ fn check_modify_sgr(params: &[SgrParam], m: FmSpec, caps: Caps, prior: FaceSpec)
         st,
         model
     );
-    for (role, got_c, want_c) in [
-        (Role::Fg, got.fg, want.fg),
-        (Role::Bg, got.bg, want.bg),
-        (Role::Ul, got.underline_color, want.underline_color),
+    for (role, got_c, want_c, alpha) in [
+        (Role::Fg, got.fg, want.fg, m.fg_alpha),
+        (Role::Bg, got.bg, want.bg, m.bg_alpha),
+        (Role::Ul, got.underline_color, want.underline_color, m.ul_alpha),
     ] {
         let ps = colour_params(params, role);
         match caps.depth {
+            // (see check_face_sgr)
+            0 if translucent(alpha) => ensure!(
+                got_c.is_some() == want_c.is_some() && ps.len() == want_c.is_some() as usize && ps.iter().all(|p| matches!(p, SgrParam::Rgb { .. })),
+                "modify/true-colour-one-parameter-per-colour",
+                "FaceModify({:?}) emitted SGR {:?}: expected exactly one true-colour parameter for the translucent {:?} colour",
+                m,
+                refsgr::print(params),
+                role
+            ),
             0 => ensure!(
                 got_c == want_c && ps.len() == want_c.is_some() as usize,
                 "modify/true-colour",
@@ -652,6 +795,9 @@ fn judge(case: &Case, all: &[u8], per_cmd: &[(usize, usize)]) -> Result<(), Fail
                 _ => return mismatch("not-one-sgr", "expected exactly one well-formed SGR sequence (none for a no-op)".into()),
             },
         }
+        if case.fresh_reference {
+            judge_against_fresh(cmd, caps, bytes, &ops)?;
+        }
     }
     Ok(())
 }
@@ -703,7 +849,21 @@ pub fn check_case(case: &Case) -> Outcome {
         Cmd::EraseChars(0) => true,
         _ => false,
     });
+    // colours in the order the encoder looks them up
+    let lookups: Vec<(usize, [u8; 3], u8)> = case
+        .cmds
+        .iter()
+        .enumerate()
+        .flat_map(|(i, c)| colour_slots(c).into_iter().map(move |(_, rgb, a)| (i, rgb, a.unwrap_or(255))))
+        .collect();
+    let has_translucent = lookups.iter().any(|l| l.2 != 255);
+    let echo = |same_cmd: bool| lookups.windows(2).any(|w| w[0].1 == w[1].1 && w[0].2 != w[1].2 && (w[0].0 == w[1].0) == same_cmd);
     let mut pass = Pass::new(kinds.len() >= 2 || rich_face || extreme)
+        .label_if(case.fresh_reference, "fresh-encoder-reference")
+        .label_if(has_translucent, "translucent-colour")
+        .label_if(echo(true), "equal-rgb-other-alpha:in-one-command")
+        .label_if(echo(false), "equal-rgb-other-alpha:consecutive-commands")
+        .label_if(lookups.windows(2).any(|w| w[0].1 == w[1].1 && w[0].2 == w[1].2), "same-colour-twice-in-a-row")
         .label(match caps.depth { 0 => "depth:true", 1 => "depth:256", _ => "depth:grey" })
         .label_if(caps.kitty_keyboard, "kitty-keyboard")
         .label_if(case.short_sink.is_some(), "short-write-sink")
@@ -725,7 +885,7 @@ fn rgb() -> BoxedStrategy<[u8; 3]> {
 
 pub fn face_spec() -> BoxedStrategy<FaceSpec> {
     (proptest::option::of(rgb()), proptest::option::of(rgb()), 0u8..32, 0u8..=5)
-        .prop_map(|(fg, bg, flags, underline)| FaceSpec { fg, bg, flags, underline })
+        .prop_map(|(fg, bg, flags, underline)| FaceSpec { fg, bg, flags, underline, fg_alpha: None, bg_alpha: None })
         .boxed()
 }
 
@@ -752,8 +912,56 @@ pub fn fm_spec() -> BoxedStrategy<FmSpec> {
             italic,
             blink,
             strike,
+            fg_alpha: None,
+            bg_alpha: None,
+            ul_alpha: None,
         })
         .boxed()
+}
+
+const ALPHAS: [u8; 8] = [0, 1, 48, 128, 200, 254, 255, 96];
+
+/// history-correlated colours: the k-th colour the encoder will look up (fg, bg, underline
+/// colour of each face command, in this order) is rewritten as `plan[k % len]` says:
+/// `p % 4` = 0 unchanged, 1 own RGB with alpha `ALPHAS[p / 4 % 8]`, 2|3 the RGB of the colour
+/// looked up just before (same or previous face command) with alpha `ALPHAS[p / 4 % 8]`
+pub fn correlate_colours(cmds: &mut [Cmd], plan: &[u8]) {
+    if plan.is_empty() {
+        return;
+    }
+    let mut prev: Option<[u8; 3]> = None;
+    let mut k = 0usize;
+    let mut slot = |c: &mut Option<[u8; 3]>, a: &mut Option<u8>| {
+        let Some(rgb) = c.as_mut() else { return };
+        let p = plan[k % plan.len()];
+        k += 1;
+        let alpha = ALPHAS[(p / 4) as usize % ALPHAS.len()];
+        match p % 4 {
+            0 => {}
+            1 => *a = Some(alpha),
+            _ => {
+                if let Some(q) = prev {
+                    *rgb = q;
+                }
+                *a = Some(alpha);
+            }
+        }
+        prev = Some(*rgb);
+    };
+    for cmd in cmds {
+        match cmd {
+            Cmd::Face(f) => {
+                slot(&mut f.fg, &mut f.fg_alpha);
+                slot(&mut f.bg, &mut f.bg_alpha);
+            }
+            Cmd::FaceModify(m) => {
+                slot(&mut m.fg, &mut m.fg_alpha);
+                slot(&mut m.bg, &mut m.bg_alpha);
+                slot(&mut m.underline_color, &mut m.ul_alpha);
+            }
+            _ => {}
+        }
+    }
 }
 
 fn pos() -> BoxedStrategy<usize> {
@@ -835,8 +1043,14 @@ impl Property for C05 {
     }
 
     fn strategy(&self, _tier: Tier) -> BoxedStrategy<Case> {
-        (caps(), face_spec(), proptest::collection::vec(cmd(), 1..10), proptest::option::weighted(0.2, (any::<u8>(), 0u8..48)), proptest::option::weighted(0.2, short_sink_pattern()))
-            .prop_map(|(caps, prior, cmds, failed_before, short_sink)| Case { caps, prior, cmds, failed_before, short_sink })
+        // in 30% of the cases the colours of the stream are correlated with their history and get
+        // an alpha (see `correlate_colours`)
+        let plan = prop_oneof![7 => Just(Vec::new()), 3 => proptest::collection::vec(any::<u8>(), 1..6)];
+        (caps(), face_spec(), proptest::collection::vec(cmd(), 1..10), proptest::option::weighted(0.2, (any::<u8>(), 0u8..48)), proptest::option::weighted(0.2, short_sink_pattern()), plan, proptest::bool::weighted(0.1))
+            .prop_map(|(caps, prior, mut cmds, failed_before, short_sink, plan, fresh)| {
+                correlate_colours(&mut cmds, &plan);
+                Case { caps, prior, cmds, failed_before, short_sink, fresh_reference: fresh || !plan.is_empty() }
+            })
             .boxed()
     }
 
@@ -849,7 +1063,7 @@ impl Property for C05 {
     }
 
     fn rule(&self) -> String {
-        "streams of 1-9 commands through one TTYEncoder (in one case of five the encoder has first been asked to encode one of these commands into a writer that refuses after 0-47 bytes; in one case of five the same stream is also encoded, by a fresh encoder with the same history, into a writer that accepts only 1-64 (mostly 1-3) bytes per write call in a cyclic pattern of 1-3 limits, and if other bytes reach it than reach the Vec the whole oracle is applied to them: signature encode/<kind>/short-write-sink) under every colour depth x kitty-keyboard setting: every TerminalCommand variant except Raw/Image (positions biased to 0,1,79,65534,65535 and uniform below 2^31; signed moves/scrolls incl. 0, +-1, i32::MAX, i32::MIN; erase counts incl. 0; faces = optional opaque fg/bg x all 32 flag subsets x 6 underline styles; face modifications with every field combination; all DEC modes; palette indices; capability names [A-Za-z0-9]{1,8}; titles and characters of printable Unicode). The output is parsed by an independent ECMA-48/xterm parser: complete self-contained sequences only, operation list equal to the commanded operations, identical when parsed inside the stream; SGR judged by the reference SGR machine from an arbitrary prior state. non-trivial = >=2 command kinds, or a face with >=2 attributes and a colour, or an extreme numeric".into()
+        "streams of 1-9 commands through one TTYEncoder (in one case of five the encoder has first been asked to encode one of these commands into a writer that refuses after 0-47 bytes; in one case of five the same stream is also encoded, by a fresh encoder with the same history, into a writer that accepts only 1-64 (mostly 1-3) bytes per write call in a cyclic pattern of 1-3 limits, and if other bytes reach it than reach the Vec the whole oracle is applied to them: signature encode/<kind>/short-write-sink) under every colour depth x kitty-keyboard setting: every TerminalCommand variant except Raw/Image (positions biased to 0,1,79,65534,65535 and uniform below 2^31; signed moves/scrolls incl. 0, +-1, i32::MAX, i32::MIN; erase counts incl. 0; faces = optional fg/bg x all 32 flag subsets x 6 underline styles; face modifications with every field combination; colours opaque, and in 30% of the cases rewritten along the order in which the encoder looks them up (fg, bg, underline colour of each face command) by a generated plan of 1-5 steps: unchanged / own RGB with an alpha out of 0,1,48,96,128,200,254,255 / the RGB of the colour looked up just before, in the same or the previous face command, with such an alpha - so translucent colours, the same colour twice in a row and equal RGB with another alpha occur as fg/bg of one face and in consecutive commands; all DEC modes; palette indices; capability names [A-Za-z0-9]{1,8}; titles and characters of printable Unicode). The output is parsed by an independent ECMA-48/xterm parser: complete self-contained sequences only, operation list equal to the commanded operations, identical when parsed inside the stream; SGR judged by the reference SGR machine from an arbitrary prior state (a translucent colour in true colour: exactly one true-colour parameter). In the cases with rewritten colours and in one of ten others the library is also its own reference: every command is encoded alone by a brand-new encoder and, if the bytes differ, must parse into the same operations as the bytes of the stream's encoder (encode/<kind>/depends-on-history); every colour of a face command is encoded alone (FaceModify with just this colour, brand-new encoder) and must select the same true colour / palette entry / grey level as inside the command (face|modify/<true-colour|256-colour|grey-level>-depends-on-context). non-trivial = >=2 command kinds, or a face with >=2 attributes and a colour, or an extreme numeric".into()
     }
 
     fn assumptions(&self) -> Vec<String> {
@@ -857,6 +1071,7 @@ impl Property for C05 {
             "interpreter conventions: missing or 0 count = 1 for CUU/CUD/CUF/CUB/ECH/SU/SD; SGR per ECMA-48/xterm/kitty (22 normal intensity, 21 double underline, 4:n underline styles, 38/48/58 colours)".into(),
             "reduced depths are checked for shape only (exactly one palette entry / grey level per present colour); which entry is C20's subject".into(),
             "EraseChars(0), Scroll(0), CursorMove{0,0} must perform nothing".into(),
+            "translucent colours: the statement does not say which RGB / palette entry an interpreter should be given for a colour with alpha < 255, so the harness requires no particular value - only the shape (one parameter per colour) and that the value is a function of the colour: equal to what a brand-new encoder emits for the same command, and to what it emits for this colour alone ('one palette entry per colour', 'whatever preceded it'); parameters are compared by the RGB an interpreter resolves them to".into(),
             "positions at or above 2^31 and TerminalCommand::Raw/Image are not generated".into(),
             "contract of io::Write the statement relies on: write may accept any non-empty prefix of the buffer and the caller must offer the rest again; a writer that always makes progress and never fails must therefore receive the complete sequences whenever encode returns Ok (an Err from encode into such a writer is reported as encode/<kind>/short-write-sink-error)".into(),
         ]
